@@ -1867,4 +1867,133 @@ theorem p1Rejects_homog_eq_deser (O : Oracles) (opts : DeserOpts) (item : FieldD
       cases toValueErr (mapE (deser O opts false item) xs) <;> rfl
 
 
+
+/-! ### collect-all deserialization at any depth: what phase one reports is sound, and complete
+    exactly when no supplied field is rejected by the constructor alone -/
+
+/-- the supplied fields only the constructor rejects (phase one accepts the document value, the
+    constructor rejects what phase one made of it) -/
+def ctorOnlyInvalid (O : Oracles) (opts : DeserOpts) (ign : Bool) (doc : List (String × PyVal))
+    (fields : List (String × FieldDecl)) : List String :=
+  fields.filterMap fun nf =>
+    match lookup nf.1 doc with
+    | none => none
+    | some v => if v.isNone then none else
+      match deser O opts ign nf.2 v with
+      | .ok y => if isOk (validate O nf.2 y) then none else some nf.1
+      | .error _ => none
+
+theorem p1SiteD_top (O : Oracles) (opts : DeserOpts) (ign : Bool) (scr : List (Option String))
+    (name : String) (f : FieldDecl) (v : PyVal) (s : P1Site) (h : p1SiteD O opts ign scr name f v = some s) :
+    s.top = name := by
+  cases hx : (isClassRef f && isDictVal v) with
+  | false => exact (p1SiteD_names_own_field O opts ign scr name f v s h hx).2.1
+  | true =>
+    unfold p1SiteD at h
+    have hnf : isFlatDecl f = false := by
+      cases hf : isFlatDecl f with
+      | false => rfl
+      | true => simp [isFlat_not_classRef f hf] at hx
+    simp only [hnf, Bool.false_eq_true, if_false] at h
+    cases hd : deser O opts ign f v with
+    | ok y => simp [hd] at h
+    | error e =>
+      simp only [hd] at h
+      split at h <;> (simp only [Option.some.injEq] at h; subst h; rfl)
+
+/-- SOUND at any depth: every field collect-all deserialization reports from its first phase is an
+    invalid supplied field (for classes without flat fields the two phase-one models coincide by
+    definition; flat fields use `p1Rejects`, tied to `deser` by `p1Rejects_homog_eq_deser` and the
+    driver's cross-check) — stated for the `deser`-based part -/
+theorem deep_phase_one_sound (O : Oracles) (opts : DeserOpts) (ign : Bool)
+    (doc : List (String × PyVal)) (fields : List (String × FieldDecl)) (n : String)
+    (hn : n ∈ fields.filterMap fun nf =>
+      match lookup nf.1 doc with
+      | none => none
+      | some v => if v.isNone then none else
+        match deser O opts ign nf.2 v with
+        | .ok _ => none
+        | .error _ => some nf.1) :
+    n ∈ deserInvalid O opts ign doc fields := by
+  simp only [List.mem_filterMap] at hn
+  obtain ⟨nf, hnf, h⟩ := hn
+  simp only [deserInvalid, List.mem_filterMap]
+  refine ⟨nf, hnf, ?_⟩
+  cases hl : lookup nf.1 doc with
+  | none => simp [hl] at h
+  | some v =>
+    simp only [hl] at h ⊢
+    split
+    · rename_i hv; simp [hv] at h
+    · rename_i hv
+      simp only [hv] at h
+      cases hd : deser O opts ign nf.2 v with
+      | ok y => simp [hd] at h
+      | error e => simpa [hd] using h
+
+/-- EXACT at any depth: the invalid supplied fields are those phase one rejects together with those
+    only the constructor rejects; so the first phase alone reports all of them iff the latter set
+    is empty (the two-phase finding, for every declaration) -/
+theorem deserInvalid_nil_ctorOnly (O : Oracles) (opts : DeserOpts) (ign : Bool)
+    (doc : List (String × PyVal)) (fields : List (String × FieldDecl)) (n : String) :
+    n ∈ deserInvalid O opts ign doc fields ↔
+      (n ∈ fields.filterMap fun nf =>
+        match lookup nf.1 doc with
+        | none => none
+        | some v => if v.isNone then none else
+          match deser O opts ign nf.2 v with
+          | .ok _ => none
+          | .error _ => some nf.1) ∨ n ∈ ctorOnlyInvalid O opts ign doc fields := by
+  simp only [deserInvalid, ctorOnlyInvalid, List.mem_filterMap]
+  constructor
+  · rintro ⟨nf, hnf, h⟩
+    cases hl : lookup nf.1 doc with
+    | none => simp [hl] at h
+    | some v =>
+      simp only [hl] at h
+      by_cases hv : v.isNone = true
+      · simp [hv] at h
+      · simp only [hv] at h
+        cases hd : deser O opts ign nf.2 v with
+        | ok y => right; exact ⟨nf, hnf, by simpa [hl, hv, hd] using h⟩
+        | error e => left; exact ⟨nf, hnf, by simpa [hl, hv, hd] using h⟩
+  · rintro (⟨nf, hnf, h⟩ | ⟨nf, hnf, h⟩)
+    · refine ⟨nf, hnf, ?_⟩
+      cases hl : lookup nf.1 doc with
+      | none => simp [hl] at h
+      | some v =>
+        simp only [hl] at h ⊢
+        by_cases hv : v.isNone = true
+        · simp [hv] at h
+        · simp only [hv] at h ⊢
+          cases hd : deser O opts ign nf.2 v with
+          | ok y => simp [hd] at h
+          | error e => simpa [hd] using h
+    · refine ⟨nf, hnf, ?_⟩
+      cases hl : lookup nf.1 doc with
+      | none => simp [hl] at h
+      | some v =>
+        simp only [hl] at h ⊢
+        by_cases hv : v.isNone = true
+        · simp [hv] at h
+        · simp only [hv] at h ⊢
+          cases hd : deser O opts ign nf.2 v with
+          | ok y => simpa [hd] using h
+          | error e => simp [hd] at h
+
+/-- the two-phase finding at depth: `arr: Array[Array[PositiveInt]]` given `[[1, -1]]` (only the
+    constructor's sign check rejects it) next to `s: String` given `5` -/
+theorem two_phase_deep_example :
+    let O : Oracles := exOracles
+    let fields : List (String × FieldDecl) :=
+      [("arr", .seqOf .list (.seqOf .list (.integer { sign := .pos }) {}) {}), ("s", .string none none none)]
+    let doc : List (String × PyVal) := [("arr", .list [.list [.int 1, .int (-1)]]), ("s", .int 5)]
+    deserInvalid O {} false doc fields = ["arr", "s"] ∧
+    (p1SitesD O {} false [] doc fields).map (·.top) = ["s"] ∧
+    ctorOnlyInvalid O {} false doc fields = ["arr"] ∧
+    (locate O (.seqOf .list (.seqOf .list (.integer { sign := .pos }) {}) {})
+      (.list [.list [.int 1, .int (-1)]])).suffix.text = "_0_1".toList := by
+  decide
+
+
 end Typedpy.C18
